@@ -620,6 +620,31 @@ static void scen_futasg() {
   pthread_join(t, NULL);
 }
 
+// ---- a Future polled with IsComplete() by one thread while another thread calls Set(), Future<T> and Future<void>
+static int fp_k = 0;
+template <typename F>
+static void *fp_poller(void *p) {
+  F *f = static_cast<F*>(p);
+  for (int i = 0; i < fp_k; i++)
+    if (f->IsComplete()) break;
+  int v = fa_get(f);
+  out(1, v);
+  delete f;
+  return NULL;
+}
+template <typename F>
+static void scen_futpoll(int k) {
+  pthread_t t;
+  fp_k = k;
+  {
+    F f;
+    F *c = new F(f);
+    pthread_create(&t, NULL, fp_poller<F>, c);
+    fa_set(&f);
+  }  // ~f
+  pthread_join(t, NULL);
+}
+
 // ---- PeriodicThread: constructor starts the thread, Stop() terminates and joins it
 static bool per_cb() { out(2, 0); return true; }
 static void scen_periodic() {
@@ -722,6 +747,8 @@ static void child(const std::vector<std::string> &a) {
   else if (a[0] == "poolre") scen_poolre(atoi(a[1].c_str()), atoi(a[2].c_str()));
   else if (a[0] == "futasg" && a[1] == "int") scen_futasg<Future<int> >();
   else if (a[0] == "futasg") scen_futasg<Future<void> >();
+  else if (a[0] == "futpoll" && a[1] == "int") scen_futpoll<Future<int> >(atoi(a[2].c_str()));
+  else if (a[0] == "futpoll") scen_futpoll<Future<void> >(atoi(a[2].c_str()));
   else if (a[0] == "locker") scen_locker();
   else if (a[0] == "prefs") scen_prefs();
   else if (a[0] == "prefs2") scen_prefs2();
@@ -742,7 +769,8 @@ static std::string handle(const std::string &p) {
       !(a[0] == "futcopy" && a.size() == 3) && !(a[0] == "ss" && a.size() == 5) &&
       !(a[0] == "execre" && a.size() == 4) && !(a[0] == "periodic" && a.size() == 2) &&
       !(a[0] == "pool" && a.size() == 3) && !(a[0] == "poolre" && a.size() == 4) &&
-      !(a[0] == "futasg" && a.size() == 3 && (a[1] == "int" || a[1] == "void")) && !(a[0] == "locker" && a.size() == 2) &&
+      !(a[0] == "futasg" && a.size() == 3 && (a[1] == "int" || a[1] == "void")) &&
+      !(a[0] == "futpoll" && a.size() == 4 && (a[1] == "int" || a[1] == "void")) && !(a[0] == "locker" && a.size() == 2) &&
       !(a[0] == "prefs" && a.size() == 2) && !(a[0] == "prefs2" && a.size() == 2) &&
       !(a[0] == "prefsj" && a.size() == 2) && !(a[0] == "term" && a.size() == 2) && !(a[0] == "ssd" && a.size() == 5))
     return "bad-op";
